@@ -123,6 +123,10 @@ def gen_program(seed, k, tier):
     from pysph.sph.equation import Group
     rng = np.random.default_rng(common.case_seed(PROP, 'gen', seed, k))
     dim = int(rng.integers(1, 4))
+    # every (kernel, dimension) pair that exists is met once per 21 programs
+    pairs = [(d_, n_) for d_ in (1, 2, 3) for n_ in evalkit.kernels()
+             if evalkit.kernel_for(n_, d_) is not None]
+    dim, forced_kernel = pairs[(k + seed) % len(pairs)]
     transcendental = bool(k % 3 == 2)
     names = ['a', 'b'] if rng.random() < 0.7 else ['a', 'b', 'c']
     ngroups = int(rng.integers(3, 7))
@@ -146,7 +150,7 @@ def gen_program(seed, k, tier):
         groups.append(Group(equations=eqs))
     kn = [n for n in evalkit.kernels() if ('1D' in n) == (dim == 1) or
           n in ('CubicSpline', 'Gaussian', 'QuinticSpline', 'SuperGaussian')]
-    kname = kn[k % len(kn)]
+    kname = forced_kernel
     return dict(k=k, dim=dim, names=names, kernel=kname,
                 exact=not transcendental, kind='generated'), groups, texts
 
